@@ -22,7 +22,7 @@ RULE = ("random pipelines (vf/pipelines.py: Probe/PlaneWave x potentials x detec
 CLAUSES = ["float64-agree:values", "float32-agree:values", "configured-dtype", "fftw-backend-reached", "numpy-backend-reached",
            "transform-float64-agree", "transform-float32-agree", "reuse-float64-agree", "reuse-float32-agree"]
 QUICK = dict(n=18, time=45)
-THOROUGH = dict(n=700, time=480, shards=16)
+THOROUGH = dict(n=2850, time=480, shards=16)
 
 EFFORTS = ["FFTW_ESTIMATE", "FFTW_MEASURE", "FFTW_PATIENT"]
 NO_FFT_OPS = ("gaussian_filter",)
